@@ -48,13 +48,13 @@ impl ReferenceIdRequest {
         )?;
         writer.write_all(&ef_len.to_be_bytes())?;
         writer.write_all(&self.offset.to_be_bytes())?;
-        writer.write_all(&[0; 2])?;
 
-        let words = payload_len / 4;
-        assert_eq!(payload_len % 4, 0);
-
-        for _ in 1..words {
-            writer.write_all(&[0; 4])?;
+        // The rest of the payload is zero. A decoded request may have a payload
+        // length that is not a multiple of four; like every other NTPv5 field it
+        // is then padded with zeros up to the next word boundary.
+        let padded_len = usize::from(payload_len).next_multiple_of(4).max(4);
+        for _ in 2..padded_len {
+            writer.write_all(&[0])?;
         }
 
         Ok(())
